@@ -43,6 +43,7 @@ def configs(tier):
     for sizes, gt in [((1, 1), None), ((2, 1), None), ((1, 1, 1), [0, 1]), ((2, 0), None)]:
         out.append(dict(key=f"measured,ref={sizes},gt={gt}", mode="measured", sizes=list(sizes), gt=gt, maxu=1,
                         cost=50 * 9 ** (len(gt) if gt else len(sizes))))
+    out.append(dict(key="measured,ref=(2, 1),gt=None,ties-on-start-allowed", mode="measured", sizes=[2, 1], gt=None, maxu=1, ties=True, cost=50 * 81))
     # long redraw chains: one annotator, one unit, up to 24 consecutive duration draws that are too short
     out.append(dict(key="custom,annotators=1,weights,maxu=1,redraws<=24", mode="custom", nann=1, weights=True, maxu=1, maxredraw=24, cost=600))
     # the same sampler object initialised twice on the same continuum object (other ground truth, continuum changed in between)
@@ -131,7 +132,7 @@ def harness(cfg, ns):
         else:
             sizes = tuple(cfg["sizes"])
             labels = [("x", "y")[(k // 2) % 2] for k in range(sum(sizes))]
-            c, info = common.build_continuum(ns, ctx, sizes, coords="sym", labels=labels)
+            c, info = common.build_continuum(ns, ctx, sizes, coords="sym", labels=labels, ordered=("weak" if cfg.get("ties") else True))
             inputs = [v[kk] for v in info.values() for kk in ("start", "end")]
             gt = None if cfg["gt"] is None else [ANN[i] for i in cfg["gt"]]
             gt_names = [ANN[i] for i in (range(len(sizes)) if cfg["gt"] is None else cfg["gt"])]
